@@ -19,6 +19,7 @@ import (
 )
 
 type NondetRec struct {
+	Stub  bool   `json:"stub,omitempty"` // drawn inside a stub: not part of the replay inputs
 	Name  string `json:"name"`
 	Kind  string `json:"kind"` // f64 int bool dyadic
 	Bits  int    `json:"bits,omitempty"`
@@ -293,6 +294,9 @@ func (ex *Explorer) inputsFromModel(model map[string]string) ([]InputVal, string
 	var ins []InputVal
 	note := ""
 	for _, nd := range ex.nondets {
+		if nd.Stub {
+			continue
+		}
 		if nd.Kind == "choose" {
 			ins = append(ins, InputVal{Kind: "int", V: strings.TrimPrefix(nd.Name, "choose=")})
 			continue
@@ -407,6 +411,16 @@ func (ex *Explorer) Known(id string, c *Term) {
 func (ex *Explorer) Nondet(kind string, bits, shift int) *Term {
 	tt := ex.in.tt
 	dom := ex.in.cfg.Dom
+	if ex.concrete && ex.in.inStub > 0 {
+		// a "!" stub in a concrete run: its draws are not inputs; use zero values
+		switch kind {
+		case "f64", "dyadic":
+			return tt.Float(0, dom)
+		case "bool":
+			return tt.Bool(false)
+		}
+		return tt.BV(0, bits)
+	}
 	if ex.concrete {
 		v := ex.nextInput(kind)
 		ex.nondets = append(ex.nondets, NondetRec{Kind: kind})
@@ -454,7 +468,7 @@ func (ex *Explorer) Nondet(kind string, bits, shift int) *Term {
 			val = tt.mk("fp.mul", SFP, 0, tt.mk("RNE", SBool, 0), tt.mk("(_ to_fp 11 53)", SFP, 0, tt.mk("RNE", SBool, 0), t), tt.Float(scale, SFP))
 		}
 	}
-	ex.nondets = append(ex.nondets, NondetRec{Name: name, Kind: kind, Bits: bits, Shift: shift, term: t})
+	ex.nondets = append(ex.nondets, NondetRec{Name: name, Kind: kind, Bits: bits, Shift: shift, term: t, Stub: ex.in.inStub > 0})
 	return val
 }
 
